@@ -27,19 +27,19 @@ package mq
 //@   ensures result != nil ==> istype(result, *Malformed) && payload(result, *Malformed) != nil && unchanged(*v)
 //@   ensures result == nil ==> len(data) >= 1 && uint(*v) <= 268435455
 //@   ensures len(data) == 0 ==> result != nil
-//@   ensures specVbOK(len(data), data[0], data[1], data[2], data[3]) ==> result == nil && uint(*v) == specVbValue(data[0], data[1], data[2], data[3])   #C15 #C03
+//@   ensures specVbOK(len(data), data[0], data[1], data[2], data[3]) ==> result == nil && uint(*v) == specVbValue(data[0], data[1], data[2], data[3])   #C15 #C03 #C09
 //@   ensures !specVbOK(len(data), data[0], data[1], data[2], data[3]) ==> result != nil                                                               #C15 #C09 #C03
-//@   ensures result == nil ==> specVbWidth(uint(*v)) <= specVbLen(data[0], data[1], data[2], data[3]) && specVbLen(data[0], data[1], data[2], data[3]) <= len(data)   #C03
+//@   ensures result == nil ==> specVbWidth(uint(*v)) <= specVbLen(data[0], data[1], data[2], data[3]) && specVbLen(data[0], data[1], data[2], data[3]) <= len(data)   #C03 #C09
 //@   loop 0:
 //@     invariant -1 <= rangeindex && rangeindex <= 3 && rangeindex < len(data)
 //@     invariant multiplier == specPow128(rangeindex + 1)
 //@     invariant value < multiplier
 //@     invariant forall k in 0..rangeindex+1: data[k] & 128 != 0                                    #C15 #C03 #C09
-//@     invariant rangeindex == -1 ==> value == 0                                                    #C15 #C03
-//@     invariant rangeindex == 0 ==> value == uint(data[0] & 127)                                   #C15 #C03
-//@     invariant rangeindex == 1 ==> value == uint(data[0] & 127) + uint(data[1] & 127) * 128       #C15 #C03
-//@     invariant rangeindex == 2 ==> value == uint(data[0] & 127) + uint(data[1] & 127) * 128 + uint(data[2] & 127) * 16384   #C15 #C03
-//@     invariant rangeindex == 3 ==> value == uint(data[0] & 127) + uint(data[1] & 127) * 128 + uint(data[2] & 127) * 16384 + uint(data[3] & 127) * 2097152   #C15 #C03
+//@     invariant rangeindex == -1 ==> value == 0                                                    #C15 #C03 #C09
+//@     invariant rangeindex == 0 ==> value == uint(data[0] & 127)                                   #C15 #C03 #C09
+//@     invariant rangeindex == 1 ==> value == uint(data[0] & 127) + uint(data[1] & 127) * 128       #C15 #C03 #C09
+//@     invariant rangeindex == 2 ==> value == uint(data[0] & 127) + uint(data[1] & 127) * 128 + uint(data[2] & 127) * 16384   #C15 #C03 #C09
+//@     invariant rangeindex == 3 ==> value == uint(data[0] & 127) + uint(data[1] & 127) * 128 + uint(data[2] & 127) * 16384 + uint(data[3] & 127) * 2097152   #C15 #C03 #C09
 //@     decreases 4 - rangeindex
 
 //@ func (*bits).UnmarshalBinary
@@ -90,8 +90,8 @@ package mq
 //@   ensures result != nil ==> istype(result, *Malformed) && payload(result, *Malformed) != nil
 //@   ensures result == nil ==> len(data) >= 4 + len(v[0]) + len(v[1])
 //@   ensures result == nil ==> fresh(v[0]) && fresh(v[1])                                                       #C14
-//@   ensures len(data) >= 4 + int(specU16(data[0], data[1])) && len(data) >= 4 + int(specU16(data[0], data[1])) + int(specU16(data[2+int(specU16(data[0], data[1]))], data[3+int(specU16(data[0], data[1]))])) ==> result == nil   #C03
-//@   ensures result == nil ==> len(v[0]) == int(specU16(data[0], data[1])) && len(v[1]) == int(specU16(data[2+len(v[0])], data[3+len(v[0])]))   #C03
+//@   ensures len(data) >= 4 + int(specU16(data[0], data[1])) && len(data) >= 4 + int(specU16(data[0], data[1])) + int(specU16(data[2+int(specU16(data[0], data[1]))], data[3+int(specU16(data[0], data[1]))])) ==> result == nil   #C03 #C09
+//@   ensures result == nil ==> len(v[0]) == int(specU16(data[0], data[1])) && len(v[1]) == int(specU16(data[2+len(v[0])], data[3+len(v[0])]))   #C03 #C09
 //@   ensures result == nil ==> forall k in 0..len(v[0]): v[0][k] == data[2+k]                                   #C03
 //@   ensures result == nil ==> forall k in 0..len(v[1]): v[1][k] == data[4+len(v[0])+k]                         #C03
 
@@ -1425,37 +1425,37 @@ package mq
 //@   let u2 = int(specU16(b.data[o+2+u1], b.data[o+3+u1]))
 //@   assigns b.i, b.err, *payload(v, *bits), *payload(v, *Ident), *payload(v, *wbool), *payload(v, *wuint16), *payload(v, *wuint32), *payload(v, *vbint), *payload(v, *bindata), *payload(v, *rawdata), *payload(v, *UserProp), $rejected, $alloc
 //@   -- an earlier failure is final; a failing read leaves the cursor where it was
-//@   ensures old(b.err) != nil ==> b.err == old(b.err) && b.i == o                                                    #C03
-//@   ensures b.err != nil ==> b.i == o                                                                                #C03
+//@   ensures old(b.err) != nil ==> b.err == old(b.err) && b.i == o                                                    #C03 #C09
+//@   ensures b.err != nil ==> b.i == o                                                                                #C03 #C09
 //@   ensures old(b.err) == nil && b.err == nil ==> o < n && o < b.i && b.i <= n                                       #C03
 //@   -- one byte
-//@   ensures old(b.err) == nil && istype(v, *bits) ==> (b.err == nil <==> o + 1 <= n)                                 #C03
+//@   ensures old(b.err) == nil && istype(v, *bits) ==> (b.err == nil <==> o + 1 <= n)                                 #C03 #C09
 //@   ensures old(b.err) == nil && istype(v, *bits) && b.err == nil ==> b.i == o + 1 && *payload(v, *bits) == bits(b.data[o])    #C03
-//@   ensures old(b.err) == nil && istype(v, *Ident) ==> (b.err == nil <==> o + 1 <= n)                                #C03
+//@   ensures old(b.err) == nil && istype(v, *Ident) ==> (b.err == nil <==> o + 1 <= n)                                #C03 #C09
 //@   ensures old(b.err) == nil && istype(v, *Ident) && b.err == nil ==> b.i == o + 1 && *payload(v, *Ident) == Ident(b.data[o]) #C03
 //@   -- a byte that must be 0 or 1
-//@   ensures old(b.err) == nil && istype(v, *wbool) ==> (b.err == nil <==> o + 1 <= n && b.data[o] <= 1)              #C03
+//@   ensures old(b.err) == nil && istype(v, *wbool) ==> (b.err == nil <==> o + 1 <= n && b.data[o] <= 1)              #C03 #C09
 //@   ensures old(b.err) == nil && istype(v, *wbool) && b.err == nil ==> b.i == o + 1 && *payload(v, *wbool) == (b.data[o] == 1) #C03
 //@   -- two and four byte integers, big endian
-//@   ensures old(b.err) == nil && istype(v, *wuint16) ==> (b.err == nil <==> o + 2 <= n)                              #C03
+//@   ensures old(b.err) == nil && istype(v, *wuint16) ==> (b.err == nil <==> o + 2 <= n)                              #C03 #C09
 //@   ensures old(b.err) == nil && istype(v, *wuint16) && b.err == nil ==> b.i == o + 2 && *payload(v, *wuint16) == wuint16(specU16(b.data[o], b.data[o+1]))   #C03
-//@   ensures old(b.err) == nil && istype(v, *wuint32) ==> (b.err == nil <==> o + 4 <= n)                              #C03
+//@   ensures old(b.err) == nil && istype(v, *wuint32) ==> (b.err == nil <==> o + 4 <= n)                              #C03 #C09
 //@   ensures old(b.err) == nil && istype(v, *wuint32) && b.err == nil ==> b.i == o + 4 && *payload(v, *wuint32) == wuint32(specU32(b.data[o], b.data[o+1], b.data[o+2], b.data[o+3]))   #C03
 //@   -- variable byte integer
-//@   ensures old(b.err) == nil && istype(v, *vbint) ==> (b.err == nil <==> specVbOK(n - o, b.data[o], b.data[o+1], b.data[o+2], b.data[o+3]))   #C03
+//@   ensures old(b.err) == nil && istype(v, *vbint) ==> (b.err == nil <==> specVbOK(n - o, b.data[o], b.data[o+1], b.data[o+2], b.data[o+3]))   #C03 #C09
 //@   ensures old(b.err) == nil && istype(v, *vbint) && b.err == nil ==> uint(*payload(v, *vbint)) == specVbValue(b.data[o], b.data[o+1], b.data[o+2], b.data[o+3]) && b.i == o + specVbWidth(uint(*payload(v, *vbint)))   #C03
 //@   -- length-prefixed string or binary data; a transmitted empty value leaves the destination as it was
-//@   ensures old(b.err) == nil && istype(v, *bindata) && b.err == nil ==> o + 2 + u1 <= n                             #C03
+//@   ensures old(b.err) == nil && istype(v, *bindata) && b.err == nil ==> o + 2 + u1 <= n                             #C03 #C09
 //@   ensures old(b.err) == nil && istype(v, *bindata) && b.err == nil && u1 != 0 ==> len(*payload(v, *bindata)) == u1 && b.i == o + 2 + u1 && fresh(*payload(v, *bindata))   #C03
 //@   ensures old(b.err) == nil && istype(v, *bindata) && b.err == nil && u1 != 0 ==> forall k in 0..u1: (*payload(v, *bindata))[k] == b.data[o+2+k]   #C03
 //@   ensures old(b.err) == nil && istype(v, *bindata) && b.err == nil && u1 == 0 ==> unchanged(*payload(v, *bindata)) && b.i == o + 2 + len(*payload(v, *bindata))   #C03
 //@   ensures old(b.err) == nil && istype(v, *bindata) && o + 2 + u1 <= n && (u1 != 0 || o + 2 + len(old(*payload(v, *bindata))) <= n) ==> b.err == nil   #C03
 //@   -- everything up to the end of the frame
-//@   ensures old(b.err) == nil && istype(v, *rawdata) ==> (b.err == nil <==> o < n)                                   #C03
+//@   ensures old(b.err) == nil && istype(v, *rawdata) ==> (b.err == nil <==> o < n)                                   #C03 #C09
 //@   ensures old(b.err) == nil && istype(v, *rawdata) && b.err == nil ==> b.i == n && len(*payload(v, *rawdata)) == n - o && fresh(*payload(v, *rawdata))   #C03
 //@   ensures old(b.err) == nil && istype(v, *rawdata) && b.err == nil ==> forall k in 0..n-o: (*payload(v, *rawdata))[k] == b.data[o+k]   #C03
 //@   -- string pair
-//@   ensures old(b.err) == nil && istype(v, *UserProp) ==> (b.err == nil <==> o + 4 <= n && o + 4 + u1 <= n && o + 4 + u1 + u2 <= n)   #C03
+//@   ensures old(b.err) == nil && istype(v, *UserProp) ==> (b.err == nil <==> o + 4 <= n && o + 4 + u1 <= n && o + 4 + u1 + u2 <= n)   #C03 #C09
 //@   ensures old(b.err) == nil && istype(v, *UserProp) && b.err == nil ==> len(payload(v, *UserProp)[0]) == u1   #C03
 //@   ensures old(b.err) == nil && istype(v, *UserProp) && b.err == nil ==> len(payload(v, *UserProp)[1]) == int(specU16(b.data[o+2+len(payload(v, *UserProp)[0])], b.data[o+3+len(payload(v, *UserProp)[0])]))   #C03
 //@   ensures old(b.err) == nil && istype(v, *UserProp) && b.err == nil ==> len(payload(v, *UserProp)[1]) == u2   #C03
